@@ -427,3 +427,21 @@ Proof.
            assert (Hq : 8 < sqrt r) by (apply sqrt_gt; lra);
            set (sr := sqrt r) in *; clearbody sr; replace q with 2 by lra; lra end.
 Qed.
+
+(* ------------------------------------------------------------------------------------------ *)
+Print Assumptions t_ana_exact.
+Print Assumptions t_anad_exact.
+Print Assumptions t_ana_scale_slowness.
+Print Assumptions t_ana_scale_length.
+Print Assumptions t_anad_scale_slowness.
+Print Assumptions t_anad_scale_length.
+Print Assumptions t_ana_swap_zx.
+Print Assumptions t_ana_swap_zy.
+Print Assumptions t_ana_swap_xy.
+Print Assumptions sweep_tt_eq.
+Print Assumptions t2d_zx_plane_wave.
+Print Assumptions t2d_zy_plane_wave.
+Print Assumptions t2d_xy_plane_wave.
+Print Assumptions op3_exact_on_plane_wave.
+Print Assumptions sweep_uses_op3.
+Print Assumptions sweep_op3_plane_wave.
